@@ -489,9 +489,12 @@ Proof.
   induction F as [|i l Hi F IH]; [reflexivity|]. simpl. rewrite (strip_bare i Hi), IH. reflexivity.
 Qed.
 
-(* C18-N1: the format has no place for per-service keys: they do not come back, and the
-   id that was written is then no longer the id of the list that was read -- for every
-   hash function, unless SHA-256 / uuid-SHA1 collide on exactly the two pre-images *)
+(* Observation, not a finding: a format limitation of the neighbouring roster-file path,
+   outside the statement of C18 (which is about the private configuration and the group
+   definition read by the app package).  The format has no place for per-service keys:
+   they do not come back, and the id that was written is then not the id of the list
+   that was read -- for every hash function, unless SHA-256 / uuid-SHA1 collide on
+   exactly the two pre-images *)
 Definition n1_identity : identity :=
   {| i_pub := k32 "S"; i_priv := None; i_addr := bs "tls://10.0.0.1:7770"; i_desc := []; i_url := [];
      i_srv := [ {| sid_name := bs "a"; sid_suite := bs "Ed25519"; sid_pub := k32 "A"; sid_priv := None |} ] |}.
@@ -524,7 +527,7 @@ Lemma check_roster_file_nil stored ids rs :
   check_roster_file stored ids rs = [] <->
   rs <> [] /\ all_equal_g rs = true /\
   forall r, In r rs -> exists got ro, r = GOk got ro /\ res_eqb ro (RId stored) = true /\
-                                     list_eqb identity_eqb ids got = true.
+                                     list_eqb identity_eqb (map strip_identity ids) got = true.
 Proof.
   unfold check_roster_file. rewrite dedup_nil. split.
   - intros H. apply app_eq_nil in H as [H1 H2]. apply app_eq_nil in H2 as [H2 H3].
@@ -533,10 +536,8 @@ Proof.
     intros r Hr. clear H1 H2. induction rs as [|x rs IH]; [contradiction|].
     simpl in H3. apply app_eq_nil in H3 as [Hx Hrs]. destruct Hr as [->|Hr]; [|apply IH; assumption].
     unfold roster_file_clause in Hx. destruct r as [| |n|got ro]; try discriminate Hx.
-    apply app_eq_nil in Hx as [Ha Hb]. apply clause_nil in Ha.
-    exists got, ro. split; [reflexivity|]. split; [exact Ha|].
-    destruct (list_eqb identity_eqb ids got); [reflexivity|].
-    destruct (list_eqb identity_eqb _ _); discriminate Hb.
+    apply app_eq_nil in Hx as [Ha Hb]. apply clause_nil in Ha. apply clause_nil in Hb.
+    exists got, ro. split; [reflexivity|]. split; [exact Ha | exact Hb].
   - intros (Hne & Heq & Hall).
     assert (E1 : match rs with [] => [7] | _ => [] end = []) by (destruct rs; [contradiction|reflexivity]).
     rewrite E1, Heq. simpl. clear E1 Heq Hne.
